@@ -43,7 +43,7 @@ use rpki::rtr::state::{Serial, State};
 use rpki_verif::{guard, hex, Ctx};
 
 #[path = "../shared/rtr_sched.rs"] mod rtr_sched;
-use rtr_sched::{parse_script, play, quiesce, render_script, sock_pair, Ev, Mark, Sched};
+use rtr_sched::{parse_script, play_with, quiesce, render_script, sock_pair, Ev, Mark, Sched};
 
 
 //------------ the data the server serves ------------------------------------
@@ -121,12 +121,26 @@ fn hdr(v: u8, ty: u8, session: u16, len: u32) -> Vec<u8> {
     o
 }
 
-/// The data a source serves: the full set and the retained diff.
+/// The data a source serves in one state: serial, the full set and the
+/// retained diffs (from-serial, changes).
 #[derive(Clone)]
-struct Data { name: String, full: Vec<Item>, diff: Vec<(Item, bool)> }
+struct Data { name: String, serial: u32, full: Vec<Item>, diffs: Vec<(u32, Vec<(Item, bool)>)> }
 
 impl Data {
-    fn base() -> Data { Data { name: "base".into(), full: full_items(), diff: diff_items() } }
+    fn base() -> Data { Data { name: "base".into(), serial: SERIAL, full: full_items(), diffs: vec![(SERIAL - 1, diff_items())] } }
+
+    /// The state the source moves to when it advances: serial + 1, one origin
+    /// more and another IPv6 origin, the diff from the base state retained
+    /// (the older one is dropped).
+    fn next() -> Data {
+        let added = Item::V4 { addr: [192, 0, 2, 0], len: 24, max: 28, asn: 65100 };
+        let old6 = full_items().remove(1);
+        let new6 = Item::V6 { addr: [0x20, 0x01, 0x0d, 0xb8, 0, 1, 0, 0, 0, 0, 0, 0, 0, 0, 0, 0], len: 48, max: 48, asn: 65001 };
+        let mut full = full_items(); full[1] = new6.clone(); full.push(added.clone());
+        Data { name: "next".into(), serial: SERIAL + 1, full, diffs: vec![(SERIAL, vec![(old6, false), (new6, true), (added, true)])] }
+    }
+
+    fn diff_from(&self, from: u32) -> Option<&Vec<(Item, bool)>> { self.diffs.iter().find(|(f, _)| *f == from).map(|(_, d)| d) }
 }
 
 fn full_items() -> Vec<Item> {
@@ -149,45 +163,58 @@ fn diff_items() -> Vec<(Item, bool)> {
 }
 
 struct SrcData {
-    ready: bool,
     state: State,
-    timing: Timing,
     full: Vec<Payload>,
-    diff: Vec<(Payload, Action)>,
+    diffs: Vec<(u32, Vec<(Payload, Action)>)>,
 }
 
-/// The harness' payload source: a fixed data set at (SESSION, SERIAL) with one
-/// retained diff (from SERIAL-1) and an empty diff for the current serial.
+struct SrcShared { ready: bool, timing: Timing, states: Vec<SrcData>, cur: std::sync::atomic::AtomicUsize }
+
+/// The harness' payload source: a sequence of states (session SESSION, one
+/// serial each, a full set and the diffs retained in that state) and the
+/// index of the current one. `advance` is the source's own event. Iterators
+/// are snapshots of the state they were created in.
 #[derive(Clone)]
-struct Src(Arc<SrcData>);
+struct Src(Arc<SrcShared>);
 
 impl Src {
-    fn new(data: &Data) -> Src {
-        Src(Arc::new(SrcData {
+    fn new(data: &Data) -> Src { Src::with_states(std::slice::from_ref(data)) }
+
+    fn with_states(states: &[Data]) -> Src {
+        let act = |a: bool| if a { Action::Announce } else { Action::Withdraw };
+        Src(Arc::new(SrcShared {
             ready: true,
-            state: State::from_parts(SESSION, Serial(SERIAL)),
             timing: Timing { refresh: REFRESH, retry: RETRY, expire: EXPIRE },
-            full: data.full.iter().map(|i| i.to_lib()).collect(),
-            diff: data.diff.iter().map(|(i, a)| (i.to_lib(), if *a { Action::Announce } else { Action::Withdraw })).collect(),
+            states: states.iter().map(|d| SrcData {
+                state: State::from_parts(SESSION, Serial(d.serial)),
+                full: d.full.iter().map(|i| i.to_lib()).collect(),
+                diffs: d.diffs.iter().map(|(f, ch)| (*f, ch.iter().map(|(i, a)| (i.to_lib(), act(*a))).collect())).collect(),
+            }).collect(),
+            cur: std::sync::atomic::AtomicUsize::new(0),
         }))
     }
+
+    fn cur(&self) -> usize { self.0.cur.load(Ordering::SeqCst) }
+
+    /// The source moves on to its next state (if it has one).
+    fn advance(&self) { if self.cur() + 1 < self.0.states.len() { self.0.cur.fetch_add(1, Ordering::SeqCst); } }
 }
 
-struct SetIter { data: Arc<SrcData>, pos: usize }
-struct DiffIter { data: Arc<SrcData>, pos: usize, empty: bool }
+struct SetIter { data: Arc<SrcShared>, state: usize, pos: usize }
+struct DiffIter { data: Arc<SrcShared>, state: usize, diff: Option<usize>, pos: usize }
 
 impl PayloadSet for SetIter {
     fn next(&mut self) -> Option<PayloadRef<'_>> {
         let i = self.pos; self.pos += 1;
-        self.data.full.get(i).map(|p| p.as_ref())
+        self.data.states[self.state].full.get(i).map(|p| p.as_ref())
     }
 }
 
 impl PayloadDiff for DiffIter {
     fn next(&mut self) -> Option<(PayloadRef<'_>, Action)> {
-        if self.empty { return None }
+        let d = self.diff?;
         let i = self.pos; self.pos += 1;
-        self.data.diff.get(i).map(|(p, a)| (p.as_ref(), *a))
+        self.data.states[self.state].diffs[d].1.get(i).map(|(p, a)| (p.as_ref(), *a))
     }
 }
 
@@ -195,13 +222,15 @@ impl PayloadSource for Src {
     type Set = SetIter;
     type Diff = DiffIter;
     fn ready(&self) -> bool { self.0.ready }
-    fn notify(&self) -> State { self.0.state }
-    fn full(&self) -> (State, SetIter) { (self.0.state, SetIter { data: self.0.clone(), pos: 0 }) }
+    fn notify(&self) -> State { self.0.states[self.cur()].state }
+    fn full(&self) -> (State, SetIter) { let c = self.cur(); (self.0.states[c].state, SetIter { data: self.0.clone(), state: c, pos: 0 }) }
     fn diff(&self, state: State) -> Option<(State, DiffIter)> {
         if state.session() != SESSION { return None }
-        if state.serial().0 == SERIAL { Some((self.0.state, DiffIter { data: self.0.clone(), pos: 0, empty: true })) }
-        else if state.serial().0 == SERIAL - 1 { Some((self.0.state, DiffIter { data: self.0.clone(), pos: 0, empty: false })) }
-        else { None }
+        let c = self.cur();
+        let st = &self.0.states[c];
+        if state.serial().0 == st.state.serial().0 { return Some((st.state, DiffIter { data: self.0.clone(), state: c, diff: None, pos: 0 })) }
+        let d = st.diffs.iter().position(|(f, _)| *f == state.serial().0)?;
+        Some((st.state, DiffIter { data: self.0.clone(), state: c, diff: Some(d), pos: 0 }))
     }
     fn timing(&self) -> Timing { self.0.timing }
 }
@@ -265,11 +294,11 @@ const CORE: usize = 11;
 #[derive(Debug)]
 enum Expect { Exact(Vec<u8>), ErrorPdu }
 
-fn end_of_data(v: u8) -> Vec<u8> {
-    if v == 0 { let mut o = hdr(0, 7, SESSION, 12); o.extend_from_slice(&SERIAL.to_be_bytes()); o }
+fn end_of_data(v: u8, serial: u32) -> Vec<u8> {
+    if v == 0 { let mut o = hdr(0, 7, SESSION, 12); o.extend_from_slice(&serial.to_be_bytes()); o }
     else {
         let mut o = hdr(v, 7, SESSION, 24);
-        for x in [SERIAL, REFRESH, RETRY, EXPIRE] { o.extend_from_slice(&x.to_be_bytes()) }
+        for x in [serial, REFRESH, RETRY, EXPIRE] { o.extend_from_slice(&x.to_be_bytes()) }
         o
     }
 }
@@ -361,18 +390,20 @@ fn model(seq: &[Q], lens: &[usize], data: &Data) -> (Vec<Expect>, Vec<usize>, bo
             Q::Reset(_) => {
                 unit.extend(hdr(v, 3, SESSION, 8));
                 for i in &data.full { if i.min_version() <= v { unit.extend(i.wire(v, true)) } }
-                unit.extend(end_of_data(v));
+                unit.extend(end_of_data(v, data.serial));
             }
-            Q::Serial(_, from) if from == SERIAL => {
+            Q::Serial(_, from) if from == data.serial => {
                 unit.extend(hdr(v, 3, SESSION, 8));
-                unit.extend(end_of_data(v));
+                unit.extend(end_of_data(v, data.serial));
             }
-            Q::Serial(_, from) if from == SERIAL - 1 => {
-                unit.extend(hdr(v, 3, SESSION, 8));
-                for (i, a) in &data.diff { if i.min_version() <= v { unit.extend(i.wire(v, *a)) } }
-                unit.extend(end_of_data(v));
-            }
-            Q::Serial(..) => unit.extend(hdr(v, 8, 0, 8)),
+            Q::Serial(_, from) => match data.diff_from(from) {
+                Some(diff) => {
+                    unit.extend(hdr(v, 3, SESSION, 8));
+                    for (i, a) in diff { if i.min_version() <= v { unit.extend(i.wire(v, *a)) } }
+                    unit.extend(end_of_data(v, data.serial));
+                }
+                None => unit.extend(hdr(v, 8, 0, 8)),
+            },
             _ => unreachable!(),
         }
         out.push(Expect::Exact(unit)); due.push(end);
@@ -518,29 +549,83 @@ thread_local! {
 }
 
 /// Runs the real server over one scripted socket under `script`.
-fn execute(src: &Src, stream_bytes: &[u8], script: &[Ev]) -> Obs {
-    let obs = SCHED.with(|s| s.borrow().run(async {
+/// Who else is attached to the same `NotifySender`.
+#[derive(Clone, Copy, Debug, PartialEq, Eq, PartialOrd, Ord)]
+enum Party {
+    Alone,
+    /// A receiver obtained with `subscribe()` that is never polled.
+    IdleSubscriber,
+    /// A second connection that never sends anything (it polls its receiver).
+    IdleConn,
+    /// A second connection that asked for a reset and whose response is stuck
+    /// after k octets: it does not look at its receiver while it is stuck.
+    StalledConn(usize),
+}
+
+impl Party {
+    fn render(self) -> String {
+        match self { Party::Alone => "alone".into(), Party::IdleSubscriber => "idle-subscriber".into(), Party::IdleConn => "idle-second-connection".into(),
+            Party::StalledConn(k) => format!("second-connection-stalled-after-{k}-octets") }
+    }
+}
+
+/// `Ev::User` codes of this explorer.
+const X_SOURCE_ADVANCES: u8 = 0;
+const X_WRITES_FAIL: u8 = 1;
+const X_READS_FAIL: u8 = 2;
+
+fn execute(src: &Src, stream_bytes: &[u8], script: &[Ev]) -> Obs { execute_with(src, stream_bytes, script, Party::Alone, None) }
+
+/// Runs the real server over one scripted socket under `script`; `party`
+/// adds a second holder of the notify sender; `own_sched`: run in this
+/// runtime instead of the thread's.
+fn execute_with(src: &Src, stream_bytes: &[u8], script: &[Ev], party: Party, own_sched: Option<&Sched>) -> Obs {
+    let body = async {
         let (sock, ctl) = sock_pair();
         let mut notify = NotifySender::new();
-        let server = Server::new(
-            stream::iter(vec![Ok::<_, io::Error>(sock)]), notify.clone(), src.clone());
+        let second = match party { Party::IdleConn | Party::StalledConn(_) => Some(sock_pair()), _ => None };
+        let _subscriber = if party == Party::IdleSubscriber { Some(notify.subscribe()) } else { None };
+        let mut socks = Vec::new();
+        let ctl2 = second.map(|(s2, c2)| { socks.push(Ok::<_, io::Error>(s2)); c2 });
+        socks.push(Ok(sock));
+        let server = Server::new(stream::iter(socks), notify.clone(), src.clone());
         let h = tokio::spawn(server.run());
-        // the connection task starts and parks in its first receive
+        // the connection tasks start and park in their first receive
         let q0 = quiesce(&[&ctl]).await;
+        if let (Party::StalledConn(k), Some(c2)) = (party, &ctl2) {
+            c2.set_write_budget(Some(k));
+            c2.deliver(&hdr(1, 2, 0, 8));
+            quiesce(&[&ctl, c2]).await;
+        }
+        let mut hook = |code: u8| match code {
+            X_SOURCE_ADVANCES => src.advance(),
+            X_WRITES_FAIL => ctl.fail_writes(io::ErrorKind::BrokenPipe),
+            X_READS_FAIL => ctl.fail_reads(io::ErrorKind::ConnectionReset),
+            _ => {}
+        };
         // up to the close, then the rest: in between, is the connection still there?
         let ci = script.iter().position(|e| matches!(e, Ev::Close)).unwrap_or(script.len());
-        let mut tr = play(&ctl, stream_bytes, Some(&mut notify), &script[..ci]).await;
+        let mut tr = play_with(&ctl, stream_bytes, Some(&mut notify), &script[..ci], &mut hook).await;
         let alive = !ctl.dropped();
-        let tr2 = play(&ctl, &[], Some(&mut notify), &script[ci..]).await;
+        let tr2 = play_with(&ctl, &[], Some(&mut notify), &script[ci..], &mut hook).await;
         tr.marks.extend(tr2.marks.into_iter().map(|m| Mark { at: m.at + ci, ..m }));
         tr.spin |= tr2.spin;
+        // the other connection is released and closed as well
+        let mut other_ended = true;
+        if let Some(c2) = &ctl2 {
+            c2.set_write_budget(None); c2.close();
+            quiesce(&[&ctl, c2]).await;
+            other_ended = c2.dropped();
+        }
         Obs {
             alive_before_close: alive,
             out: ctl.output(), marks: tr.marks, consumed: ctl.consumed(), updates: ctl.updates(),
-            conn_ended: ctl.dropped(), server_ended: h.is_finished(), conn_panicked: ctl.dropped_in_panic(),
+            conn_ended: ctl.dropped() && other_ended, server_ended: h.is_finished(), conn_panicked: ctl.dropped_in_panic(),
             livelock: ctl.livelock(), spin: tr.spin || q0.spin, flood: ctl.flood(),
         }
-    }));
+    };
+    if let Some(sc) = own_sched { return sc.run(body) }
+    let obs = SCHED.with(|s| s.borrow().run(body));
     if !obs.conn_ended || !obs.server_ended {
         // a task is left behind in the runtime: start the next run from a clean one
         SCHED.with(|s| *s.borrow_mut() = Sched::new());
@@ -689,8 +774,10 @@ fn main() {
     // --replay: only the stream and the schedule named by the witness
     // (a witness of the data.sizes space names its own data set and stream; the other spaces then run on one stream only)
     let data_replay = ctx.replay.as_ref().map(|(_, w)| w.starts_with("data=")).unwrap_or(false);
+    // witnesses of the participant and history spaces: those (small) spaces are run as a whole
+    let space_replay = ctx.replay.as_ref().map(|(_, w)| w.starts_with("party=") || w.starts_with("source=") || w.starts_with("after ")).unwrap_or(false);
     if data_replay { streams.truncate(1) }
-    let replay_case: Option<(String, Vec<Ev>)> = ctx.replay.as_ref().filter(|_| !data_replay).map(|(_, w)| {
+    let replay_case: Option<(String, Vec<Ev>)> = ctx.replay.as_ref().filter(|_| !data_replay && !space_replay).map(|(_, w)| {
         let names = w.split_whitespace().find_map(|t| t.strip_prefix("stream=")).unwrap_or("").to_string();
         let sched = w.split_once("sched=").and_then(|(_, r)| parse_script(r));
         match sched {
@@ -702,7 +789,7 @@ fn main() {
 
     // deviation bound per stream size: [1 PDU, 2 PDUs, 3 PDUs]
     let bound_by_pdus: [usize; 3] = ctx.tier.pick([3, 3, 2], [4, 4, 3]);
-    let max_bound = if data_replay { 0 } else { *bound_by_pdus.iter().max().unwrap() };
+    let max_bound = if data_replay || space_replay { 0 } else { *bound_by_pdus.iter().max().unwrap() };
 
     //--- (1) reference runs against the protocol model ----------------------
     let sp = ctx.space("reference.model",
@@ -754,7 +841,7 @@ fn main() {
         let with_diff = |name: String, full: Vec<Item>| -> Data {
             // the retained diff announces the same items in the same order, withdrawing every third
             let diff = full.iter().enumerate().map(|(i, it)| (it.clone(), i % 3 != 1)).collect();
-            Data { name, full, diff }
+            Data { name, serial: SERIAL, full, diffs: vec![(SERIAL - 1, diff)] }
         };
         let mut configs: Vec<Data> = Vec::new();
         let mut bigs: Vec<(String, Item)> = Vec::new();
@@ -841,10 +928,10 @@ fn main() {
     // Judges one schedule: outcome class and the oracles it violates (with
     // details). A pure function of (stream, script), so that the failures
     // can be reported in a canonical order after the parallel phase.
-    let judge = |si: usize, script: &[Ev]| -> Result<(&'static str, Obs, Vec<(&'static str, String)>), String> {
+    let judge_party = |si: usize, script: &[Ev], party: Party| -> Result<(&'static str, Obs, Vec<(&'static str, String)>), String> {
         let st = &streams[si];
         let rf = &refs[si];
-        let obs = guard(|| execute(&src, &st.bytes, script))?;
+        let obs = guard(|| execute_with(&src, &st.bytes, script, party, None))?;
         let fired = script.iter().filter(|e| matches!(e, Ev::Notify)).count();
         let mut bad: Vec<(&'static str, String)> = Vec::new();
         if obs.conn_panicked { bad.push(("C08.sched.terminates", "connection task panicked".into())) }
@@ -891,7 +978,10 @@ fn main() {
                 // stream. C08 does not promise delivery to a client that closes right
                 // after its query; (c) was added for that.
                 let close_at = script.iter().position(|e| matches!(e, Ev::Close)).unwrap_or(script.len());
-                let mut opportunity = false;
+                // Every such point is an opportunity of its own: notifications fired after the
+                // previous one must be announced again (one Serial Notify per opportunity at least;
+                // events between two opportunities may be merged into one).
+                let mut opportunities = 0usize;
                 {
                     let (mut d, mut held, mut pending) = (0usize, false, false);
                     for e in &script[..close_at] {
@@ -900,13 +990,13 @@ fn main() {
                             Ev::Notify => pending = true,
                             Ev::WriteBudget(_) => held = true,
                             Ev::Unblock => held = false,
-                            Ev::Settle => if pending && !held && st.idle_at.contains(&d) { opportunity = true },
+                            Ev::Settle => if pending && !held && st.idle_at.contains(&d) { opportunities += 1; pending = false },
                             _ => {}
                         }
                     }
                 }
-                if opportunity && obs.alive_before_close && parsed.notifies == 0 {
-                    bad.push(("C08.sched.notify_delivered", format!("{fired} notify events were pending while the connection was open and idle between queries, no Serial Notify was sent")));
+                if obs.alive_before_close && parsed.notifies < opportunities {
+                    bad.push(("C08.sched.notify_delivered", format!("{fired} notify events; at {opportunities} separate moments the connection was open and idle between queries with a notification pending, but only {} Serial Notify PDUs were sent", parsed.notifies)));
                 }
             }
         }
@@ -916,6 +1006,7 @@ fn main() {
             else { "equal" };
         Ok((class, obs, bad))
     };
+    let judge = |si: usize, script: &[Ev]| judge_party(si, script, Party::Alone);
     let witness = |si: usize, script: &[Ev]| format!("stream={} hex={} sched={}", streams[si].names, hex(&streams[si].bytes), render_script(script));
     // failures of the parallel phase: (oracle, stream, script)
     let failures: Mutex<Vec<(&'static str, usize, Vec<Ev>)>> = Mutex::new(Vec::new());
@@ -1097,6 +1188,200 @@ fn main() {
     let exhaustive = true;
     sp.done(exhaustive, &format!("deviation bound {} on 1-PDU streams, {} on 2-PDU streams, {} on 3-PDU streams ({} streams)",
         bound_by_pdus[0], bound_by_pdus[1], bound_by_pdus[2], streams.len()));
+
+    if replay_case.is_none() && !data_replay {
+    //--- (3) a second holder of the notify sender ------------------------------------
+    let sp = ctx.space("participants.notify",
+        "streams of <= 2 PDUs that leave the connection open and in frame; the observed connection shares its NotifySender with (a) a receiver from subscribe() that is never polled, (b) a second connection that stays idle, (c) a second connection whose reset response is stuck after 0 / 9 / 60 octets; schedules: <= 1 cut and 0 to 3 notify events in every arrangement (own batches, batched with chunks, bursts) as in the schedules space; the observed connection must behave exactly as when it is alone: same responses, Serial Notify only between responses, at most one per event, at least one per moment at which it is idle with a notification pending; non-trivial = schedules with >= 2 notify events (the second one meets a channel the other participant has not drained)");
+    {
+        let parties = [Party::IdleSubscriber, Party::IdleConn, Party::StalledConn(0), Party::StalledConn(9), Party::StalledConn(60)];
+        let sis: Vec<usize> = (0..streams.len()).filter(|i| streams[*i].npdus <= 2 && streams[*i].idle_at.len() == streams[*i].npdus + 1
+            && !streams[*i].names.contains("error") && (ctx.tier.is_thorough() || streams[*i].npdus == 1 || *i % 4 == 0)).collect();
+        struct Out { evals: u64, nontrivial: u64, trans: u64, oc: BTreeMap<&'static str, u64>, fails: Vec<(&'static str, String, String)> }
+        let outs: Vec<Out> = sis.par_iter().map(|&si| {
+            let mut o = Out { evals: 0, nontrivial: 0, trans: 0, oc: BTreeMap::new(), fails: vec![] };
+            let l = streams[si].bytes.len();
+            let mut scs: Vec<Vec<Ev>> = Vec::new();
+            for j in 0..=3usize {
+                schedules(l, &[], j, false, &mut scs);
+                if j <= 2 { for c in 1..l { schedules(l, &[c], j, false, &mut scs) } }
+            }
+            for party in parties { for sc in &scs {
+                let fired = sc.iter().filter(|e| matches!(e, Ev::Notify)).count();
+                o.evals += 1; o.trans += sc.len() as u64; if fired >= 2 { o.nontrivial += 1 }
+                let wit = || format!("party={} stream={} hex={} sched={}", party.render(), streams[si].names, hex(&streams[si].bytes), render_script(sc));
+                match judge_party(si, sc, party) {
+                    Ok((class, _, bad)) => {
+                        *o.oc.entry(class).or_insert(0) += 1;
+                        for (oracle, d) in bad { o.fails.push((match oracle {
+                            "C08.sched.notify_delivered" => "C08.party.notify_delivered", "C08.sched.notify_count" => "C08.party.notify_count",
+                            "C08.sched.responses_equal" => "C08.party.responses_equal", "C08.sched.terminates" => "C08.party.terminates", other => other }, wit(), d)) }
+                    }
+                    Err(p) => ctx.machinery_error(format!("driver panicked on {}: {p}", wit())),
+                }
+            } }
+            o
+        }).collect();
+        for o in outs {
+            sp.evals(o.evals); sp.nontrivial(o.nontrivial); sp.merge_outcomes(&o.oc); sp.states(o.evals); sp.traces(o.evals); sp.transitions(o.trans);
+            for (oracle, w, d) in o.fails { ctx.fail(oracle, w, d) }
+        }
+        sp.set("streams", serde_json::json!(sis.len()));
+        sp.sample_str(|| format!("party={} stream={} sched=N | N | d8 | C |", Party::IdleSubscriber.render(), streams[sis[0]].names));
+        sp.done(true, &format!("{} streams x {} other participants x every arrangement of <= 3 notify events with <= 1 cut", sis.len(), parties.len()));
+    }
+
+    //--- (4) the source as a participant -----------------------------------------------
+    let sp = ctx.space("participants.source",
+        "streams of <= 2 well-formed queries; the source moves from (serial 7, diff from 6 retained) to (serial 8, one origin added, one replaced, diff from 7 retained, diff from 6 dropped) as an event X at every point of the schedule: before / after / batched with the octets, at every cut position, and - with the response held back after k octets, for EVERY k up to the length of the responses - while a response is partly written, alone and together with a notify; oracle: every response is, octet for octet, the model's response for ONE of the two states (payload and End of Data of the same state), namely the old state if the response was complete before X, the new one if the query was not complete before X, either otherwise; non-trivial = schedules with X inside a held-back response");
+    {
+        let d7 = Data::base(); let d8 = Data::next();
+        let sis: Vec<usize> = (0..streams.len()).filter(|i| {
+            let st = &streams[*i];
+            st.npdus <= 2 && st.qs.iter().all(|q| matches!(q, Q::Reset(_) | Q::Serial(..))) && model(&st.qs, &st.bounds.windows(2).map(|w| w[1] - w[0]).collect::<Vec<_>>(), &d7).2
+        }).collect();
+        struct Out { evals: u64, nontrivial: u64, trans: u64, oc: BTreeMap<&'static str, u64>, fails: Vec<(&'static str, String, String)> }
+        let outs: Vec<Out> = sis.par_iter().map(|&si| {
+            let mut o = Out { evals: 0, nontrivial: 0, trans: 0, oc: BTreeMap::new(), fails: vec![] };
+            let st = &streams[si];
+            let lens: Vec<usize> = st.bounds.windows(2).map(|w| w[1] - w[0]).collect();
+            let (e7, e8) = (model(&st.qs, &lens, &d7).0, model(&st.qs, &lens, &d8).0);
+            let total = |e: &Vec<Expect>| e.iter().map(|x| if let Expect::Exact(b) = x { b.len() } else { 64 }).sum::<usize>();
+            let rmax = total(&e7).max(total(&e8));
+            let l = st.bytes.len();
+            let x = Ev::User(X_SOURCE_ADVANCES);
+            let mut scs: Vec<Vec<Ev>> = vec![
+                vec![x, Ev::Settle, Ev::Deliver(l), Ev::Settle, Ev::Close, Ev::Settle],
+                vec![Ev::Deliver(l), Ev::Settle, x, Ev::Settle, Ev::Close, Ev::Settle],
+                vec![Ev::Deliver(l), x, Ev::Settle, Ev::Close, Ev::Settle],
+                vec![Ev::Deliver(l), Ev::Settle, Ev::Close, Ev::Settle],
+            ];
+            for c in 1..l {
+                scs.push(vec![Ev::Deliver(c), Ev::Settle, x, Ev::Settle, Ev::Deliver(l - c), Ev::Settle, Ev::Close, Ev::Settle]);
+                scs.push(vec![Ev::Deliver(c), x, Ev::Settle, Ev::Deliver(l - c), Ev::Settle, Ev::Close, Ev::Settle]);
+            }
+            for k in 0..=rmax {
+                scs.push(vec![Ev::WriteBudget(k), Ev::Deliver(l), Ev::Settle, x, Ev::Settle, Ev::Unblock, Ev::Settle, Ev::Close, Ev::Settle]);
+                scs.push(vec![Ev::WriteBudget(k), Ev::Deliver(l), Ev::Settle, x, Ev::Notify, Ev::Settle, Ev::Unblock, Ev::Settle, Ev::Close, Ev::Settle]);
+            }
+            for sc in &scs {
+                let wit = || format!("source=7->8 stream={} hex={} sched={}", st.names, hex(&st.bytes), render_script(sc));
+                if let Some((_, w)) = &ctx.replay { if *w != wit() { continue } }
+                o.evals += 1; o.trans += sc.len() as u64;
+                let held_x = sc.iter().any(|e| matches!(e, Ev::WriteBudget(_))); if held_x { o.nontrivial += 1 }
+                let run = guard(|| { let src2 = Src::with_states(&[d7.clone(), d8.clone()]); execute(&src2, &st.bytes, sc) });
+                let obs = match run { Ok(x) => x, Err(p) => { o.fails.push(("C08.source.consistent", wit(), format!("panic: {p}"))); continue } };
+                let verdict = (|| -> Result<&'static str, String> {
+                    if obs.conn_panicked || obs.livelock || obs.spin || obs.flood { return Err("panic / livelock / spin / flood".into()) }
+                    if !obs.conn_ended { return Err("connection still open after the client closed (hang)".into()) }
+                    let p = parse(&obs.out)?;
+                    if !p.complaints.is_empty() { return Err(p.complaints.join("; ")) }
+                    if !p.notify_inside.is_empty() { return Err("Serial Notify inside a response".into()) }
+                    if p.units.len() != e7.len() { return Err(format!("{} responses for {} queries", p.units.len(), e7.len())) }
+                    // where in the schedule the source moved
+                    let xi = sc.iter().position(|e| *e == x);
+                    let d_x: usize = xi.map(|xi| sc[..xi].iter().map(|e| if let Ev::Deliver(k) = e { *k } else { 0 }).sum()).unwrap_or(usize::MAX);
+                    let out_at_x = xi.and_then(|xi| obs.marks.iter().filter(|m| m.at < xi).map(|m| m.out_len).last()).unwrap_or(0);
+                    let mut class = "consistent:old-state";
+                    for (i, &(ty, a, b)) in p.units.iter().enumerate() {
+                        let got = &p.stripped[a..b];
+                        let is = |e: &Expect| match e { Expect::Exact(w) => got == w.as_slice(), Expect::ErrorPdu => ty == T_ERROR };
+                        let (old, new) = (is(&e7[i]), is(&e8[i]));
+                        let must_new = xi.is_some() && d_x < st.bounds[i + 1];
+                        let must_old = xi.is_none() || p.unit_raw_end[i] <= out_at_x;
+                        let ok = if must_new { new } else if must_old { old } else { old || new };
+                        if !ok {
+                            let want = if must_new { "the new state" } else if must_old { "the old state" } else { "one of the two states" };
+                            return Err(format!("response {} is not the model's response for {want}: PDU order (type:length) [{}], End of Data names serial {}; old state [{}] new state [{}]", i + 1,
+                                pdu_order(got), if got.len() >= 12 && ty == T_RESPONSE { let e = &got[got.len() - if got[0] == 0 { 4 } else { 16 }..]; u32::from_be_bytes([e[0], e[1], e[2], e[3]]).to_string() } else { "-".into() },
+                                if let Expect::Exact(w) = &e7[i] { pdu_order(w) } else { "error".into() }, if let Expect::Exact(w) = &e8[i] { pdu_order(w) } else { "error".into() }))
+                        }
+                        if new && !old { class = "consistent:new-state" }
+                    }
+                    Ok(class)
+                })();
+                match verdict { Ok(c) => *o.oc.entry(c).or_insert(0) += 1, Err(d) => { o.fails.push(("C08.source.consistent", wit(), d)); *o.oc.entry("violation").or_insert(0) += 1 } }
+            }
+            o
+        }).collect();
+        for o in outs {
+            sp.evals(o.evals); sp.nontrivial(o.nontrivial); sp.merge_outcomes(&o.oc); sp.states(o.evals); sp.traces(o.evals); sp.transitions(o.trans);
+            for (oracle, w, d) in o.fails { ctx.fail(oracle, w, d) }
+        }
+        sp.set("streams", serde_json::json!(sis.len()));
+        sp.sample_str(|| format!("source=7->8 stream={} sched=B9 d8 | X0 | U | C |", streams[sis[0]].names));
+        sp.done(true, &format!("{} streams x source advance at every schedule position and at every octet of a held-back response", sis.len()));
+    }
+
+    //--- (5) history: the same connection after other connections on the same thread ---
+    let sp = ctx.space("history.independent",
+        "subjects: a dozen (stream, schedule) runs of the server (resets and serial queries of every version, malformed queries, with notifies); predecessors, each on the same OS thread before the subjects: every subject; the client closing after k octets of a query; the response failing (writer error) after k octets; the connection abandoned (its runtime dropped) with the response pending after k octets; the stream failing after k octets - for EVERY k; every sequence runs on a thread of its own, subjects forward and in reverse order, and every transcript is compared with the subject run first thing on a fresh thread; non-trivial = sequences whose predecessor ends abnormally");
+    {
+        let pick = |name: &str| streams.iter().position(|s| s.names == name).expect("stream of the alphabet");
+        let subj: Vec<(usize, Vec<Ev>)> = {
+            let one = |si: usize| vec![Ev::Deliver(streams[si].bytes.len()), Ev::Settle, Ev::Close, Ev::Settle];
+            let mut v = Vec::new();
+            for n in ["reset0", "reset1", "reset2", "serial1.diff", "serial1.nodiff", "serial2.current", "reset3", "type9", "serial1.hdr.len8", "reset2,serial2.current", "reset1,serial1.diff"] { let si = pick(n); v.push((si, one(si))) }
+            let si = pick("reset2"); v.push((si, vec![Ev::Deliver(3), Ev::Settle, Ev::Notify, Ev::Settle, Ev::Deliver(5), Ev::Settle, Ev::Notify, Ev::Settle, Ev::Close, Ev::Settle]));
+            v.push((si, vec![Ev::WriteChunk(5), Ev::Deliver(8), Ev::Settle, Ev::Close, Ev::Settle]));
+            v
+        };
+        #[derive(Clone, Debug)] enum Pred { Subject(usize), Script(usize, Vec<Ev>, bool) }
+        let mut preds: Vec<Pred> = (0..subj.len()).map(Pred::Subject).collect();
+        for n in ["reset2", "serial1.diff", "reset2,serial2.current"] {
+            let si = pick(n); let l = streams[si].bytes.len(); let r = refs[si].out.len();
+            for k in 0..l {
+                preds.push(Pred::Script(si, vec![Ev::Deliver(k), Ev::Settle, Ev::Close, Ev::Settle], false));
+                preds.push(Pred::Script(si, vec![Ev::Deliver(k), Ev::Settle, Ev::User(X_READS_FAIL), Ev::Settle], false));
+            }
+            for k in 0..r {
+                preds.push(Pred::Script(si, vec![Ev::WriteBudget(k), Ev::Deliver(l), Ev::Settle, Ev::User(X_WRITES_FAIL), Ev::Unblock, Ev::Settle, Ev::Close, Ev::Settle], false));
+                preds.push(Pred::Script(si, vec![Ev::WriteBudget(k), Ev::Deliver(l), Ev::Settle], true));
+            }
+        }
+        let run_subject = |i: usize| -> String { match guard(|| execute(&src, &streams[subj[i].0].bytes, &subj[i].1)) { Ok(o) => format!("{} ended={} updates={:?}", hex(&o.out), o.conn_ended, o.updates), Err(p) => format!("PANIC {p}") } };
+        let fresh = |f: &(dyn Fn() -> Vec<String> + Sync)| -> Vec<String> { std::thread::scope(|sc| sc.spawn(|| f()).join().expect("history thread died")) };
+        let baseline: Vec<String> = (0..subj.len()).into_par_iter().map(|i| fresh(&|| vec![run_subject(i)]).remove(0)).collect();
+        struct Out { evals: u64, nontrivial: u64, oc: BTreeMap<&'static str, u64>, fails: Vec<(String, String)> }
+        let outs: Vec<Out> = preds.par_iter().map(|pred| {
+            let mut o = Out { evals: 0, nontrivial: 0, oc: BTreeMap::new(), fails: vec![] };
+            let abnormal = matches!(pred, Pred::Script(..));
+            for reverse in [false, true] {
+                let order: Vec<usize> = if reverse { (0..subj.len()).rev().collect() } else { (0..subj.len()).collect() };
+                let obs = fresh(&|| {
+                    let _ = guard(|| match pred {
+                        Pred::Subject(i) => { run_subject(*i); }
+                        Pred::Script(si, sc, abandon) => {
+                            if *abandon { let own = Sched::new(); execute_with(&src, &streams[*si].bytes, sc, Party::Alone, Some(&own)); drop(own) }
+                            else { execute(&src, &streams[*si].bytes, sc); }
+                        }
+                    });
+                    order.iter().map(|i| run_subject(*i)).collect()
+                });
+                o.evals += obs.len() as u64; if abnormal { o.nontrivial += 1 }
+                let mut same = true;
+                for (ob, i) in obs.iter().zip(order.iter()) {
+                    if *ob != baseline[*i] {
+                        same = false;
+                        let ptext = match pred { Pred::Subject(p) => format!("[stream={} sched={}]", streams[subj[*p].0].names, render_script(&subj[*p].1)),
+                            Pred::Script(si, sc, ab) => format!("[stream={} sched={}{}]", streams[*si].names, render_script(sc), if *ab { " then the runtime is dropped" } else { "" }) };
+                        o.fails.push((format!("after {ptext}{}: stream={} sched={}", if reverse { " (subjects in reverse order)" } else { "" }, streams[subj[*i].0].names, render_script(&subj[*i].1)),
+                            format!("transcript differs from the run on a fresh thread: here {} fresh {}", rpki_verif::trunc(ob, 200), rpki_verif::trunc(&baseline[*i], 200))));
+                    }
+                }
+                *o.oc.entry(if !same { "violation" } else if abnormal { "independent:after-abnormal-end" } else { "independent:after-normal-end" }).or_insert(0) += 1;
+            }
+            o
+        }).collect();
+        for o in outs {
+            sp.evals(o.evals); sp.nontrivial(o.nontrivial); sp.merge_outcomes(&o.oc); sp.states(o.evals); sp.traces(o.evals); sp.transitions(o.evals);
+            for (w, d) in o.fails { ctx.fail("C08.history.independent", w, d) }
+        }
+        sp.set("predecessors", serde_json::json!(preds.len()));
+        sp.sample_str(|| "after [stream=reset2 sched=B40 d8 | then the runtime is dropped]: stream=reset1 sched=d8 | C |".to_string());
+        sp.done(true, &format!("{} subjects after each of {} predecessors, both orders, one OS thread per sequence", subj.len(), preds.len()));
+    }
+    }
 
     ctx.finish();
 }
